@@ -537,6 +537,15 @@ inline Opts& opts()
    return o;
 }
 
+// known-finding exclusion list: --x known=key1,key2 (set by ./check from known_findings.txt)
+inline bool knownKey(const std::string& key)
+{
+   auto it = opts().x.find("known");
+   if(it == opts().x.end()) return false;
+   std::string s = "," + it->second + ",";
+   return s.find("," + key + ",") != std::string::npos;
+}
+
 inline void writeFile(const std::string& p, const std::string& s)
 {
    std::string tmp = p + ".tmp";
